@@ -38,6 +38,16 @@ def rust_tables(ctx):
     return m.group(1).encode(), variants, {variants[x] for x in printable}, int(fl.group(1), 2), int(zb.group(1), 0)
 
 
+def _is_compressed(e, block) -> bool:
+    """e is pyzstd.compress(payload, ...) or a local bound to it inside the block"""
+    if isinstance(e, ast.Call) and u(e.func) == "pyzstd.compress" and e.args and u(e.args[0]) == "payload":
+        return True
+    if isinstance(e, ast.Name):
+        b = [st.value for st in ast.walk(block) if isinstance(st, ast.Assign) and u(st.targets[0]) == e.id]
+        return len(b) == 1 and _is_compressed(b[0], block)
+    return False
+
+
 def run(ctx) -> None:
     ctx.rule("C09.R1", "header constants equal the Rust reference and the documented layout (magic, format values, flag bits, header length 10)", floor=8)
     ctx.rule("C09.R2", "the zstd flag is set iff the payload is compressed and read back with the same mask; decompression iff the flag", floor=4)
@@ -100,6 +110,12 @@ def run(ctx) -> None:
     me = m.functions.get("make_envelope")
     comp = [n for n in ast.walk(me) if isinstance(n, ast.If) and any(call_name(c) == "compress" for c in calls_in(n))]
     ok = len(comp) == 1 and u(comp[0].test) == "config.zstd is not None" and "pyzstd.compress(payload, config.zstd)" in u(comp[0])
+    if ok:
+        # on every path through the guarded block the payload becomes the compressed bytes (the header flag is unconditional)
+        gb = CFG(comp[0].body)
+        assigns = gb.where(lambda st: isinstance(st, ast.Assign) and u(st.targets[0]) == "payload")
+        good = [a for a in assigns if _is_compressed(gb.stmt[a].value, comp[0])]
+        ok = bool(good) and EXIT not in gb.reachable(0, avoid=set(good)) and len(assigns) == len(good) and not comp[0].orelse
     ctx.check(ok, "C09.R2", "make_envelope: compresses iff configured", m.path, me.lineno,
               "the payload is compressed under exactly the condition that sets the header flag (zstd is not None)", me, found=u(comp[0].test) if comp else "")
     dec = [n for n in ast.walk(re_) if isinstance(n, ast.If) and any(call_name(c) == "decompress" for c in calls_in(n))]
@@ -193,6 +209,9 @@ def run(ctx) -> None:
     ctx.check(ok, "C09.R6", "serial Package.deserialize", sp.module.path, ds.lineno, "every module and extension is decoded, in order", ds)
     f = sp.find_field("extensions")
     ctx.check(f is not None and f.default_factory is not None, "C09.R6", "serial Package.extensions default", sp.module.path, f.node.lineno if f else 1, "", f.node if f else None)
+    from .. import lints
+    lints.arm(ctx)
+
 
 
 # ---------------------------------------------------------------------------------------
